@@ -560,7 +560,7 @@ theorem rewindLoop_spec (W : World) (r : Nat) (q : Bool) (n : Nat) (s : St) (rw 
     generalize hx : rewindLoop W r q (n + 1) s rw = x
     simp only [rewindLoop] at hx
     by_cases h1 : s.curH > r
-    · by_cases h2 : (W.prev s.cur == 0) = true
+    · by_cases h2 : (!s.chain.contains (W.prev s.cur)) = true
       · simp only [h1, h2, ↓reduceIte] at hx
         subst hx
         exact ⟨rfl, rfl, hq⟩
